@@ -970,6 +970,32 @@ def rk_clause(vals, integrator, clause=None, stage=None, c=None, order=None):
         p = _exact_order(cls, order)
         show(observed_order=p)
         return p >= order - 0.3
+    if clause == "stability":
+        # propagator of y' = lambda y recovered from real steps (polynomial fit in z = lambda*dt) against the polynomial of the
+        # statement: Taylor of degree 4 for lsrk4, the Bogey-Bailly coefficients for lsrk25bb / lsrk26bb
+        want = {"lsrk4": [1.0, 0.5, 1 / 6., 1 / 24.],
+                "lsrk25bb": [1.0, 0.5, 0.165250353664, 0.039372585984, 0.007149096448],
+                "lsrk26bb": [1.0, 0.5, 0.165919771368, 0.040919732041, 0.007555704391, 0.000891421261]}.get(integrator)
+        if want is None:
+            return True
+
+        class _Lin:
+            def __init__(self, lam):
+                self.lam = lam
+
+            def rhs(self, fld):
+                return [self.lam * fld.data[0]]
+        zs = np.linspace(-1.2, 1.2, 2 * len(want) + 3)
+        R = []
+        for z in zs:
+            s2 = cls(_Mesh(1), _Lin(z))
+            f2 = field.fdata(_M(), _Mesh(1), [np.array([1.0])], t=0.0)
+            s2.step(f2, 1.0)
+            R.append(float(f2.data[0][0]))
+        coef = np.polyfit(zs, np.array(R), len(want))[::-1]       # ascending powers
+        got = [float(c_) for c_ in coef[1:]]
+        show(integrator=integrator, propagator_coefficients=got, expected=want)
+        return abs(coef[0] - 1) < 1e-8 and all(abs(g - w) <= 2e-9 + 1e-7 * 0 for g, w in zip(got, want))
     return True
 
 
@@ -1015,6 +1041,14 @@ def implicit_clause(vals, integrator, n, neq, clause=None):
     if clause == "time":
         return close(f.time, t0 + dt)
     ok = err <= 1e-6 and close(f.time, t0 + dt)
+    # the step of a linear model is the same function of (field, dt) whether the Jacobian was just computed or is cached:
+    # repeat the step from the same state on the same solver object (history of gear removed) -- bit for bit
+    fa = f.copy(); fa.data[0][:] = q0; fa.time = t0
+    s.__dict__.pop("_lastresidual", None)
+    s.step(fa, dt)
+    if not np.array_equal(np.asarray(fa.data[0]), np.asarray(f.data[0])):
+        show(integrator=integrator, first_step_vs_step_with_cached_jacobian=float(np.max(np.abs(fa.data[0] - f.data[0]))))
+        ok = False
     if integrator == "gear":
         # further steps against the exact BDF2 recurrence (3I - 2dt A) Q_{n+1} = 4 Q_n - Q_{n-1}
         qm, qn = q0, ref.copy()
